@@ -541,7 +541,7 @@ impl BuiltInFunction {
 
                 let start_i64 = start as i64;
                 let end_i64 = end as i64;
-                let length = end_i64 - start_i64;
+                let length = end_i64.saturating_sub(start_i64);
 
                 if length > u32::MAX as i64 {
                     return Err(RuntimeError::new(format!(
